@@ -11,6 +11,7 @@ output, failures are error codes — *nothing* about what it computes), every wi
 history `h` of `seek`/`read`/`get_position` calls with arbitrary arguments, successful or not, every query.
 -/
 import Sqfs.Proofs.MetaReader
+import Sqfs.Proofs.DataReaderCache
 namespace Sqfs.C10
 open Sqfs.MetaReader Sqfs.Consts
 
@@ -87,6 +88,62 @@ theorem failed_miss_unpositions (f : File) (unc : Codec) (m : MR) (b o : Nat)
     by_cases ho : o ≥ blk.length
     · simp only [ho, if_true]; exact ⟨trivial, trivial, trivial, trivial⟩
     · simp only [ho, if_false] at hfail; exact absurd rfl hfail
+
+/-! ### Part 2: the data reader's block cache and fragment cache (`lib/sqfs/src/data_reader.c`)
+
+`kw = false` is the code as it is (data-block cache keyed by location only), `kw = true` the code with
+`fixes/C10-data-reader-cache-key.patch`.  `sw` is the image's "location ↦ size word" function; `ConsIno`
+says an inode's block list agrees with it (true for every pair of inodes the library writes: blocks are
+shared only as whole identical `(location, size word)` runs) and is *no condition at all* when `kw = true`. -/
+
+/-- a freshly created data reader (after `load_fragment_table`) is coherent -/
+theorem data_coherent_init (kw : Bool) (f : File) (unc : Codec) (sw : Nat → Nat) (bs : Nat) (tbl : List (Nat × Nat)) :
+    DataReader.DCoh kw f unc sw (DataReader.fresh bs tbl) := DataReader.fresh_dcoh kw f unc sw bs tbl
+
+/-- `sqfs_data_reader_read` keeps both caches coherent, on success and on every failure path, and its answer
+is the answer of the cacheless reference reader -/
+theorem data_coherent_read (kw : Bool) (f : File) (unc : Codec) (sw : Nat → Nat) (hc : CodecOK unc) (d : DataReader.DR)
+    (hd : DataReader.DCoh kw f unc sw d) (ino : DataReader.Inode) (hi : DataReader.ConsIno kw sw ino) (o n : Nat) :
+    DataReader.DCoh kw f unc sw (DataReader.read kw f unc d ino o n).2 ∧
+    (DataReader.read kw f unc d ino o n).1 = DataReader.readSpec f unc d.blockSize d.tbl ino o n :=
+  ⟨(DataReader.read_spec hc hd ino hi o n).2.1, (DataReader.read_spec hc hd ino hi o n).1⟩
+
+/-- **Main theorem (data reader).**  After any history of reads whose inodes agree with the image's
+location ↦ size-word function, a read is answered by the cacheless reference — a function of the image, the
+fragment table and the query alone. -/
+theorem data_read_eq_cacheless (kw : Bool) (f : File) (unc : Codec) (sw : Nat → Nat) (hc : CodecOK unc)
+    (bs : Nat) (tbl : List (Nat × Nat)) (h : List DataReader.Op)
+    (hh : ∀ op ∈ h, match op with | .read ino _ _ => DataReader.ConsIno kw sw ino)
+    (ino : DataReader.Inode) (hi : DataReader.ConsIno kw sw ino) (o n : Nat) :
+    (DataReader.read kw f unc (DataReader.run kw f unc (DataReader.fresh bs tbl) h) ino o n).1 =
+      DataReader.readSpec f unc bs tbl ino o n := by
+  obtain ⟨hd, hb, ht⟩ := DataReader.run_dcoh hc h _ (DataReader.fresh_dcoh kw f unc sw bs tbl) hh
+  have := (DataReader.read_spec hc hd ino hi o n).1
+  rw [hb, ht] at this
+  exact this
+
+/-- hence: same answer as a fresh data reader (current code, images whose inodes are consistent) -/
+theorem data_history_independent_written (f : File) (unc : Codec) (sw : Nat → Nat) (hc : CodecOK unc)
+    (bs : Nat) (tbl : List (Nat × Nat)) (h : List DataReader.Op)
+    (hh : ∀ op ∈ h, match op with | .read ino _ _ => DataReader.ConsIno false sw ino)
+    (ino : DataReader.Inode) (hi : DataReader.ConsIno false sw ino) (o n : Nat) :
+    (DataReader.read false f unc (DataReader.run false f unc (DataReader.fresh bs tbl) h) ino o n).1 =
+    (DataReader.read false f unc (DataReader.fresh bs tbl) ino o n).1 := by
+  rw [data_read_eq_cacheless false f unc sw hc bs tbl h hh ino hi o n]
+  have := data_read_eq_cacheless false f unc sw hc bs tbl [] (fun _ h => nomatch h) ino hi o n
+  exact this.symm
+
+/-- repaired code (cache keyed by location *and* size word): history independence on **every** image,
+damaged ones included, for arbitrary inodes -/
+theorem data_history_independent_repaired (f : File) (unc : Codec) (hc : CodecOK unc)
+    (bs : Nat) (tbl : List (Nat × Nat)) (h : List DataReader.Op) (ino : DataReader.Inode) (o n : Nat) :
+    (DataReader.read true f unc (DataReader.run true f unc (DataReader.fresh bs tbl) h) ino o n).1 =
+    (DataReader.read true f unc (DataReader.fresh bs tbl) ino o n).1 := by
+  have all : ∀ i : DataReader.Inode, DataReader.ConsIno true (fun _ => 0) i := fun _ _ _ => Or.inl rfl
+  have hh : ∀ op ∈ h, match op with | .read ino _ _ => DataReader.ConsIno true (fun _ => 0) ino := by
+    intro op _; cases op; exact all _
+  rw [data_read_eq_cacheless true f unc (fun _ => 0) hc bs tbl h hh ino (all _) o n]
+  exact (data_read_eq_cacheless true f unc (fun _ => 0) hc bs tbl [] (fun _ h => nomatch h) ino (all _) o n).symm
 
 /-! ### the hypotheses are satisfiable, the statements are not vacuous -/
 
